@@ -719,7 +719,7 @@ func (w *World) LoadRepoContracts() error {
 // spec files
 
 var specKeywords = map[string]bool{"spec": true, "uninterp": true, "axiom": true, "lemma": true, "requires": true,
-	"ensures": true, "let": true, "canary": true, "rec": true, "trusted-spec": true, "witness": true}
+	"ensures": true, "let": true, "canary": true, "rec": true, "trusted-spec": true, "witness": true, "call": true}
 
 func (w *World) LoadSpecDir(dir string) error {
 	files, _ := filepath.Glob(filepath.Join(dir, "*.spec"))
@@ -824,6 +824,15 @@ func (w *World) LoadSpecFile(path string) error {
 				return fail(err)
 			}
 			cur.Steps = append(cur.Steps, LemmaStep{Kind: word, Name: name, E: e, Text: text, Line: l.line})
+		case "call":
+			if cur == nil {
+				return fail(fmt.Errorf("call outside lemma"))
+			}
+			e, err := ParseCExpr(rest)
+			if err != nil {
+				return fail(err)
+			}
+			cur.Steps = append(cur.Steps, LemmaStep{Kind: "call", E: e, Text: rest, Line: l.line})
 		case "let", "witness":
 			if cur == nil {
 				return fail(fmt.Errorf("let outside lemma"))
